@@ -218,6 +218,10 @@ def c01_6(ctx: Ctx):
     sorts = [c for c in calls_in(fi.node) if isinstance(c.func, ast.Attribute) and c.func.attr == "sort"] + [
         c for c in calls_in(fi.node) if isinstance(c.func, ast.Name) and c.func.id == "sorted"
     ]
+    if not sorts:
+        ctx.fail(fi, fi.node, "resolve_offsets sorts the modifications", "no sort at all: modifications are applied in registration order, the running offset translation of _apply_modifications "
+                 "(which assumes ascending offsets) goes wrong and patches land at the wrong place", key="resolve_offsets::sort-present")
+        return
     if len(sorts) != 1:
         raise AnalysisError(f"resolve_offsets: {len(sorts)} sort calls")
     s = sorts[0]
